@@ -41,7 +41,7 @@ def hlo_classes(m):
     out = {}
     for qn in m.subclasses(HLO, strict=True):
         out[short(qn)] = list(m.fields(qn))
-    if len(out) < 8:
+    if len(out) < 5:
         raise AnalysisError(f"only {len(out)} HighLevelOp classes found")
     return out
 
@@ -104,8 +104,8 @@ def r_arity(c):
                     ": an operand tuple of another length dies with a TypeError "
                     "instead of being reported as unknown",
                     facts={"lengths": None if lens is None else sorted(set(lens))})
-    if n < 9:
-        raise AnalysisError(f"only {n} HighLevelOp constructions found (floor 9)")
+    if n < 6:
+        raise AnalysisError(f"only {n} HighLevelOp constructions found (floor 6)")
 
 
 def _splat_lengths(fd, st):
@@ -204,8 +204,8 @@ def r_order(c):
                             f"operands of a {ty} are extracted as ({', '.join(attrs)}) "
                             f"but the node's field order is {order}: the operation's "
                             "operands are swapped")
-    if n < 4:
-        raise AnalysisError(f"only {n} ordered operand extractions found (floor 4)")
+    if n < 2:
+        raise AnalysisError(f"only {n} ordered operand extractions found (floor 2)")
     # subtraction pattern a + (-1)*b  ->  (a, b)
     ok = False
     for test, body in _branches(fd):
@@ -437,7 +437,7 @@ def r_patterns(c):
                             f"len({base}) == n: a node with more operands is matched and "
                             "its extra operands silently dropped (approximated instead of "
                             "reported unknown)")
-    if n < 6:
+    if n < 4:
         raise AnalysisError(f"only {n} constant child subscripts found in the raiser")
     # (2) the recognisers that must see casts get the original lambda
     for helper in ("_is_idx_lambda_broadcast_op", "_is_normal_reduce_expr"):
@@ -552,8 +552,8 @@ else:
 SPEC = Spec(
     prop="C19",
     rules=[r_arity, r_order, r_cascade, r_tables, r_producer, r_patterns, r_intclass, r_reduce_positions],
-    floors={"R19-ARITY": 9, "R19-ORDER": 5, "R19-CASCADE": 6, "R19-TABLES": 60,
-            "R19-PRODUCER": 10, "R19-PATTERN": 12},
+    floors={"R19-ARITY": 7, "R19-ORDER": 4, "R19-CASCADE": 4, "R19-TABLES": 60,
+            "R19-PRODUCER": 8, "R19-PATTERN": 11},
     explanation=(
         "R19-ARITY: every construction of a HighLevelOp dataclass binds exactly its "
         "fields; a starred operand tuple must have its length pinned down on every "
